@@ -540,3 +540,67 @@ def verbosity_regions_pure(fn, gname='of_verbosity'):
         if i.op == 'store' and term_mentions_global(tt.term(i.ops[1]), gname) and tt.term(i.ops[1])[0] in ('global', 'goff'):
             return False, i, n
     return True, None, n
+
+
+# ------------------------------------------------------------------ guards under assumptions
+def _eval_pred(pred, a, b, bits=64):
+    if pred == 'eq':
+        return a == b
+    if pred == 'ne':
+        return a != b
+    if pred[0] == 'u':
+        m = (1 << bits) - 1
+        a &= m
+        b &= m
+    return {'ugt': a > b, 'uge': a >= b, 'ult': a < b, 'ule': a <= b,
+            'sgt': a > b, 'sge': a >= b, 'slt': a < b, 'sle': a <= b}[pred]
+
+
+def contradicted_edges(fn, terms, assume):
+    """CFG edges that cannot be taken when every `term == const` in `assume` ({term: int}) holds."""
+    removed = []
+    for b in fn.blocks:
+        for s, lab in out_edges(b):
+            if lab is None:
+                continue
+            k = lab[0]
+            if k == 'br':
+                for a in cond_atoms(terms, lab[1], lab[2]):
+                    a = norm_atom(a)
+                    if a[0] == 'cmp' and a[2] in assume and a[3][0] == 'const':
+                        if not _eval_pred(a[1], assume[a[2]], a[3][1]):
+                            removed.append((b.id, s.id))
+            elif k in ('switch', 'switch-in', 'switch-default'):
+                t = terms.term(lab[1])
+                if t in assume:
+                    v = assume[t]
+                    ok = (v == lab[2]) if k == 'switch' else (v in lab[2]) if k == 'switch-in' else (v not in lab[2])
+                    if not ok:
+                        removed.append((b.id, s.id))
+    return removed
+
+
+def atoms_at_restricted(fn, terms, block, removed):
+    """Like atoms_at, on the CFG with `removed` edges deleted (paths that contradict an assumption)."""
+    rem = set(removed)
+    base = fn.reachable(fn.entry, removed=rem)
+    if block.id not in base:
+        return None            # block unreachable under the assumption
+    out = []
+    for b in fn.blocks:
+        if b.id not in base:
+            continue
+        es = out_edges(b)
+        if len(es) < 2:
+            continue
+        for s, lab in es:
+            if lab is None or (b.id, s.id) in rem:
+                continue
+            r = fn.reachable(fn.entry, removed=rem | set([(b.id, s.id)]))
+            if block.id not in r:
+                k = lab[0]
+                if k == 'br':
+                    out.extend(cond_atoms(terms, lab[1], lab[2]))
+                elif k == 'switch':
+                    out.append(('cmp', 'eq', terms.term(lab[1]), ('const', lab[2])))
+    return out
